@@ -95,6 +95,9 @@ def gen_component(rng, kind, uid, tzid=None, recur=False, override_of=None):
             lines.append("EXDATE:" + (start + datetime.timedelta(days=1)).strftime("%Y%m%dT%H%M%SZ"))
     for prop in rng.sample(["SUMMARY", "DESCRIPTION", "LOCATION", "COMMENT"], rng.randint(1, 3)):
         lines.append("%s:%s" % (prop, esc(rng.choice(WORDS))))
+    if rng.random() < 0.04:
+        # a body larger than any socket / stream buffer of the front ends (read in several chunks)
+        lines.append("X-BULK:" + "".join(rng.choice("abcdefghij") for _ in range(64)) * rng.choice([400, 1100, 3000]))
     if rng.random() < 0.4:
         lines.append("CATEGORIES:" + ",".join(esc(w) for w in rng.sample(WORDS[:6], 2)))
     if rng.random() < 0.4:
